@@ -400,6 +400,20 @@ func milli(f float64) int {
 	return int(f*1000 + 0.5)
 }
 
+func mb(f float64) int {
+	if f < 0 {
+		return -1
+	}
+	return int(f/1e6 + 0.5)
+}
+
+func unl(f float64) int {
+	if f < 0 {
+		return -1
+	}
+	return int(f + 0.5)
+}
+
 func (w *World) queueInfo(ssn *framework.Session) {
 	p, ok := ssn.VerifPlugins()["proportion"]
 	if !ok {
@@ -411,14 +425,17 @@ func (w *World) queueInfo(ssn *framework.Session) {
 	for i := range w.Sc.Queues {
 		qa := qs[common_info.QueueID(w.Sc.Queues[i].Name)]
 		if qa == nil {
-			out[i] = map[string]any{"present": 0, "fsG": 0, "desG": 0, "limG": 0, "allocG": 0, "npG": 0, "reqG": 0, "fsC": 0, "allocC": 0, "reqC": 0, "w": 0, "useG": 0}
+			out[i] = map[string]any{"present": 0, "fsG": 0, "desG": 0, "limG": 0, "allocG": 0, "npG": 0, "reqG": 0, "fsC": 0, "allocC": 0, "reqC": 0,
+				"fsM": 0, "allocM": 0, "desC": 0, "desM": 0, "w": 0, "useG": 0}
 			continue
 		}
 		g := qa.ResourceShare(rs.GpuResource)
 		c := qa.ResourceShare(rs.CpuResource)
+		mm := qa.ResourceShare(rs.MemoryResource)
 		out[i] = map[string]any{"present": 1, "fsG": milli(g.FairShare), "desG": milli(g.Deserved), "limG": milli(g.MaxAllowed),
 			"allocG": milli(g.Allocated), "npG": milli(g.AllocatedNotPreemptible), "reqG": milli(g.Request),
 			"fsC": int(c.FairShare + 0.5), "allocC": int(c.Allocated + 0.5), "reqC": int(c.Request + 0.5),
+			"fsM": mb(mm.FairShare), "allocM": mb(mm.Allocated), "desC": unl(c.Deserved), "desM": mb(mm.Deserved),
 			"w": int(g.OverQuotaWeight), "useG": milli(g.Usage)}
 	}
 	w.emit(map[string]any{"ev": "QueueInfo", "q": out, "totG": milli(tot[rs.GpuResource]), "totC": int(tot[rs.CpuResource] + 0.5), "k": milli(k)})
